@@ -109,6 +109,18 @@ impl C12 {
         if live.is_empty() {
             return;
         }
+        // one forest in eight: an element spells out the (redundant, legal) declaration of the xml prefix, as a parsed
+        // document may and as clone_with_prefixes itself may leave it on a clone
+        if rng.chance(1, 8) {
+            let elems: Vec<Node> = live.iter().copied().filter(|n| kind_of(&f.xot, *n) == MKind::Elem).collect();
+            if !elems.is_empty() {
+                let e = elems[rng.below(elems.len())];
+                let (xp, xn) = (f.xot.xml_prefix(), f.xot.xml_namespace());
+                f.xot.namespaces_mut(e).insert(xp, xn);
+                ctx.count("forests_with_an_explicit_xml_prefix_declaration");
+            }
+        }
+        let live = f.live_handles();
         let src = live[rng.below(live.len())];
         let src_kind = kind_of(&f.xot, src);
         let with_prefixes = rng.chance(1, 3);
